@@ -220,7 +220,7 @@ func c07Seeded(tier string) int {
 	if tier == "thorough" {
 		return 20000
 	}
-	return 300
+	return 1500
 }
 
 func (p *c07) NumCases(tier string) int {
